@@ -1,8 +1,9 @@
 package eventbus
 
 import (
-	"math"
 	"context"
+	"math"
+	"sync"
 	"time"
 )
 
@@ -182,4 +183,58 @@ func harnessC10MemStreams() {
 	}
 	vAssert(i == n-k1, "stream-same-length")
 	vCover("streams-done")
+}
+
+//verif:entry property=C10 tier=both bounds="memory store: G goroutines appending one event each at the same time (after one optional earlier append); every interleaving within the preemption bound; afterwards the log read in one piece, read one by one from each returned next offset, and streamed is the same sequence with strictly increasing offsets holding every appended event once" cover="appended" G_quick=2 G_thorough=3 preempt_quick=2 preempt_thorough=2 race=on
+func harnessC10MemConcurrentAppend() {
+	G := vParam("G", 2)
+	ctx := context.Background()
+	st := NewMemoryStore()
+	n := G
+	if vBool() {
+		st.Append(ctx, &Event{Type: "pre", Data: []byte(`0`)})
+		n++
+	}
+	offs := make([]Offset, G)
+	var wg sync.WaitGroup
+	for g := 0; g < G; g++ {
+		wg.Add(1)
+		g := g
+		go func() {
+			defer wg.Done()
+			o, err := st.Append(ctx, &Event{Type: "t", Data: []byte{'1' + byte(g)}})
+			vAssert(err == nil, "append-ok")
+			offs[g] = o
+		}()
+	}
+	wg.Wait()
+	vJoinAll()
+	all, _, err := st.Read(ctx, OffsetOldest, 0)
+	vAssert(err == nil && len(all) == n, "read-count")
+	for i := 1; i < len(all); i++ {
+		vAssert(all[i-1].Offset < all[i].Offset, "offset-order")
+	}
+	for g := 0; g < G; g++ {
+		found := 0
+		for _, e := range all {
+			if e.Offset == offs[g] && len(e.Data) == 1 && e.Data[0] == '1'+byte(g) {
+				found++
+			}
+		}
+		vAssert(found == 1, "append-offset-identifies-its-event")
+	}
+	// one by one, resumed from the returned next offset
+	from := OffsetOldest
+	for i := 0; i < n; i++ {
+		evs, next, rerr := st.Read(ctx, from, 1)
+		vAssert(rerr == nil && len(evs) == 1 && evs[0].Offset == all[i].Offset, "chain-has-no-gap-or-repeat")
+		from = next
+	}
+	i := 0
+	for ev, serr := range st.ReadStream(ctx, OffsetOldest) {
+		vAssert(serr == nil && i < n && ev.Offset == all[i].Offset, "stream-same-sequence")
+		i++
+	}
+	vAssert(i == n, "stream-same-sequence")
+	vCover("appended")
 }
